@@ -433,3 +433,8 @@ class C01(Check):
         play(run, ops)
         return dict(ops=ops, implementation=list(zip(run.ops, run.answers)) if len(run.ops) < 40 else run.answers,
                     oracle=self.oracle(ops))
+
+
+# the composed stream (one real application, one request, against App.serve of Model/App.lean)
+from harness import applib as _applib  # noqa: E402
+_applib.install(C01, quick=(300, 120), thorough=(10000, 3000))
